@@ -174,7 +174,15 @@ class _FunctionCall(object):
                     retval.addCallback(_cb_async, ctx, cnt, self)
 
                 else:
-                    retval = _cb_sync(ctx, cnt, self)
+                    try:
+                        retval = _cb_sync(ctx, cnt, self)
+
+                    except Exception:
+                        # the call ended in a fault: its context is closed
+                        # all the same
+                        if not self._async:
+                            p_ctx.close()
+                        raise
 
         if not self._async:
             p_ctx.close()
